@@ -5,8 +5,8 @@
    answers (map_class_fail / map_field_fail / map_method_fail, asked by the harness for everything
    that occurs in the class, class names inside descriptors included).  A question outside the
    table is an error of the case (the check then fails), never silently "unmapped". *)
-From Coq Require Export String.
-From Coq Require Import Ascii.
+From Coq Require Export String Uint63.
+From Coq Require Import Ascii ZArith.
 From FB Require Export C07.Model Base.Run.
 
 (* Strings of a case are written as Coq string literals (UTF-8) — Coq reads those far faster than
@@ -64,8 +64,121 @@ Inductive obs :=
 Inductive case :=
 | CNames (cs : ctable) (names : list str) (out : res (list str))
     (* entry names of the input jar, in order -> entry names of the remapped jar, in order *)
-| CRefs (cs : ctable) (fs ms : mtable) (this : str) (l : list obs).
+| CRefs (cs : ctable) (fs ms : mtable) (this : str) (l : list obs)
     (* one class (original name [this]): every reference position *)
+| CBad.
+    (* a case text that does not decode *)
+
+(* ------------------------------------------------------------------ *)
+(* Cases are written by the harness as ONE string literal each and decoded here (Coq elaborates a
+   literal in no time, a term of the same size node by node).  Format, over the UTF-8 bytes of the
+   literal (numbers in decimal):
+
+     case   ::= pool ( 'N' ctable strs ( 'E' | 'O' strs ) | 'R' ctable mtable mtable str obss )
+     pool   ::= count ';' strlit*                      strings referred to by '#' index ';'
+     strlit ::= 's' bytecount ':' utf8-bytes | 'c' count ':' ( codepoint ',' )*
+     str    ::= strlit | '#' index ';'
+     strs   ::= count ';' str*
+     ctable ::= count ';' ( str ostr )*                ostr  ::= '-' | '+' str
+     mtable ::= count ';' ( str str str opair )*       opair ::= '-' | '+' str str
+     obss   ::= count ';' obs*
+     obs    ::= 'n' k ';' str str | 'r' k ';' str^6 | 'd' k ';' str^4 | 'e' str opair str opair | 'u' str^4
+
+   A malformed text decodes to [CBad], on which [check] is false. *)
+Definition bytes := list N.
+Definition P (A : Type) := bytes -> option (A * bytes).
+
+Fixpoint p_num_aux (fuel : nat) (acc : N) (l : bytes) : N * bytes :=
+  match fuel, l with
+  | S k, c :: r => if (48 <=? c) && (c <=? 57) then p_num_aux k (acc * 10 + (c - 48)) r else (acc, l)
+  | _, _ => (acc, l)
+  end.
+Definition p_num : P N := fun l =>
+  match l with
+  | c :: _ => if (48 <=? c) && (c <=? 57) then Some (p_num_aux (List.length l) 0 l) else None
+  | [] => None
+  end.
+Definition p_char (c : N) : P unit := fun l =>
+  match l with x :: r => if N.eqb x c then Some (tt, r) else None | [] => None end.
+Definition p_bind {A B} (p : P A) (f : A -> P B) : P B := fun l =>
+  match p l with Some (a, r) => f a r | None => None end.
+Definition p_ret {A} (a : A) : P A := fun l => Some (a, l).
+Notation "'pdo' x <- p ; k" := (p_bind p (fun x => k)) (at level 200, x pattern, p at level 100, k at level 200).
+Fixpoint p_rep {A} (p : P A) (n : nat) : P (list A) :=
+  match n with
+  | O => p_ret []
+  | S k => pdo a <- p; pdo l <- p_rep p k; p_ret (a :: l)
+  end.
+Definition p_counted {A} (p : P A) : P (list A) :=
+  pdo n <- p_num; pdo _ <- p_char 59; p_rep p (N.to_nat n).
+Definition p_take (n : nat) : P bytes := fun l =>
+  if Nat.leb n (List.length l) then Some (firstn n l, skipn n l) else None.
+
+Definition p_strlit : P str := fun l =>
+  match l with
+  | 115 :: r => (pdo n <- p_num; pdo _ <- p_char 58; pdo b <- p_take (N.to_nat n); p_ret (utf8_dec (List.length b) b)) r
+  | 99 :: r => (pdo n <- p_num; pdo _ <- p_char 58; p_rep (pdo c <- p_num; pdo _ <- p_char 44; p_ret c) (N.to_nat n)) r
+  | _ => None
+  end.
+Definition p_str (pool : list str) : P str := fun l =>
+  match l with
+  | 35 :: r => (pdo i <- p_num; pdo _ <- p_char 59;
+                fun l' => match nth_error pool (N.to_nat i) with Some s => Some (s, l') | None => None end) r
+  | _ => p_strlit l
+  end.
+Definition p_opt {A} (p : P A) : P (option A) := fun l =>
+  match l with
+  | 45 :: r => Some (None, r)
+  | 43 :: r => (pdo a <- p; p_ret (Some a)) r
+  | _ => None
+  end.
+Definition p_pair {A B} (p : P A) (q : P B) : P (A * B) := pdo a <- p; pdo b <- q; p_ret (a, b).
+Definition p_ctable (pool : list str) : P ctable := p_counted (p_pair (p_str pool) (p_opt (p_str pool))).
+Definition p_ref3 (pool : list str) : P ref3 :=
+  pdo a <- p_str pool; pdo b <- p_str pool; pdo c <- p_str pool; p_ret (a, b, c).
+Definition p_mtable (pool : list str) : P mtable :=
+  p_counted (p_pair (p_ref3 pool) (p_opt (p_pair (p_str pool) (p_str pool)))).
+Definition p_obs (pool : list str) : P obs := fun l =>
+  let s := p_str pool in
+  match l with
+  | 110 :: r => (pdo k <- p_num; pdo _ <- p_char 59; pdo a <- s; pdo b <- s; p_ret (OName k a b)) r
+  | 114 :: r => (pdo k <- p_num; pdo _ <- p_char 59; pdo a <- p_ref3 pool; pdo b <- p_ref3 pool; p_ret (ORef k a b)) r
+  | 100 :: r => (pdo k <- p_num; pdo _ <- p_char 59; pdo n <- s; pdo d <- s; pdo n' <- s; pdo d' <- s; p_ret (ODecl k n d n' d')) r
+  | 101 :: r => (pdo c <- s; pdo m <- p_opt (p_pair s s); pdo c' <- s; pdo m' <- p_opt (p_pair s s); p_ret (OEncl c m c' m')) r
+  | 117 :: r => (pdo t <- s; pdo c <- s; pdo t' <- s; pdo c' <- s; p_ret (OEnum t c t' c')) r
+  | _ => None
+  end.
+Definition p_case : P case :=
+  pdo pool <- p_counted p_strlit;
+  fun l =>
+    match l with
+    | 78 :: r =>
+        (pdo cs <- p_ctable pool; pdo names <- p_counted (p_str pool);
+         fun l' => match l' with
+                   | 69 :: r' => Some (CNames cs names Err, r')
+                   | 79 :: r' => (pdo out <- p_counted (p_str pool); p_ret (CNames cs names (Ok out))) r'
+                   | _ => None
+                   end) r
+    | 82 :: r =>
+        (pdo cs <- p_ctable pool; pdo fs <- p_mtable pool; pdo ms <- p_mtable pool; pdo this <- p_str pool;
+         pdo l <- p_counted (p_obs pool); p_ret (CRefs cs fs ms this l)) r
+    | _ => None
+    end.
+Definition D (s : string) : case :=
+  match p_case (bytes_of s) with
+  | Some (c, []) => c
+  | _ => CBad
+  end.
+
+(* the same text, 7 bytes per primitive 63-bit integer literal (little endian): Coq elaborates such a
+   literal as one node, where a string literal costs about ten nodes per character *)
+Fixpoint unpack7 (k : nat) (x : int) : list N :=
+  match k with O => [] | S k1 => Z.to_N (Uint63.to_Z (Uint63.land x 255)) :: unpack7 k1 (Uint63.lsr x 8) end.
+Definition D7 (len : N) (l : list int) : case :=
+  match p_case (firstn (N.to_nat len) (flat_map (unpack7 7) l)) with
+  | Some (c, []) => c
+  | _ => CBad
+  end.
 
 Definition member_eqb (a b : member) : bool := str_eqb (fst a) (fst b) && str_eqb (snd a) (snd b).
 Definition ref3_eqb (a b : ref3) : bool := mkey_eqb a b.
@@ -102,4 +215,5 @@ Definition check (c : case) : bool :=
                | Err => Err
                end) out
   | CRefs cs fs ms this l => forallb (check_obs (remapper_of cs fs ms) this) l
+  | CBad => false
   end.
